@@ -246,7 +246,8 @@ Definition build_step (state : option bstate) (t : tok) : option bstate :=
                 | [] => None
                 end
     | TVarConst n k => Some (push_cmd b (b_stack b) (b_consts b) (n, k, k))
-    | TInt k => Some (push_cmd b (b_stack b) (b_consts b) (INTEGER, k, k))
+    | TInt k => if k <=? 9223372036854775807                                          (* the command array is int64: OverflowError *)
+                then Some (push_cmd b (b_stack b) (b_consts b) (INTEGER, k, k)) else None
     | TLit text => let n := Z.of_nat (length (b_consts b)) in
                    Some (push_cmd b (b_stack b) (b_consts b ++ [text]) (CONSTANT, n, n))
     | TBad _ => None                                                                  (* RuntimeError: Unknown token *)
